@@ -421,6 +421,10 @@ def run(ctx):
         ctx.notes.append("same-stem probe (outside the stated assumption): `cli d1/x.mseed d2/x.mseed --nproc 1` exit=%s wrote %d csv file(s) "
                          "for 2 input files (both results go to ./x.csv, the later one survives)" % (dupr["rc"], len(dupr["files"])))
         ctx.count("same_stem_probe_csv_files:%d" % len(dupr["files"]))
+        if len(dupr["files"]) < 2:
+            # known finding C19-b: the result for one of the two files is lost (depends on the other file of the batch)
+            ctx.violation("same-stem-files-collide", dict(same_stem=True, case=dict(files=["d1/x.mseed", "d2/x.mseed"], nproc=1), csv_files_written=len(dupr["files"])),
+                          seam="hvsrpy CLI output naming")
         lines, idx = [], []
         for (si, order, nproc, observe) in runs:
             cfg, specs = scen[si]
